@@ -232,6 +232,90 @@ def fancy_sample(rng, h, w, count):
     return out
 
 
+def _runs(n, step):
+    """the index sequences a slice with the given step denotes along an axis of length n (the empty one only forward)"""
+    out = [()] if step == 1 else []
+    for a in range(n):
+        for ln in range(1, n + 1):
+            seq = tuple(a + step * j for j in range(ln))
+            if 0 <= seq[-1] < n:
+                out.append(seq)
+    return out
+
+
+def _list_axis(n):
+    """(buffer list, image form, image sequence): the buffer axis is an integer list - any distinct indices in any order -
+    fed from a forward slice of the image or from a list of any image indices"""
+    for r in range(n + 1):
+        for b in itertools.permutations(range(n), r):
+            for i in _runs(n, 1):
+                if len(i) == r:
+                    yield b, "slice", i
+            for i in itertools.product(range(n), repeat=r):
+                yield b, "list", i
+
+
+def _slice_axis(n):
+    """(buffer form, buffer sequence, image form, image sequence): the buffer axis is a forward or reversed slice"""
+    for form, step in (("slice", 1), ("rev", -1)):
+        for b in _runs(n, step):
+            for i in _runs(n, 1):
+                if len(i) == len(b):
+                    yield form, b, "slice", i
+            for i in itertools.product(range(n), repeat=len(b)):
+                yield form, b, "list", i
+
+
+def _listrect(rows_are_list, la, sa):
+    lb, lif, li = la
+    sf, sb, sif, si = sa
+    if rows_are_list:
+        return {"k": "rect", "f": ("list", sf, lif, sif), "by": lb, "bx": sb, "iy": li, "ix": si}
+    return {"k": "rect", "f": (sf, "list", sif, lif), "by": sb, "bx": lb, "iy": si, "ix": li}
+
+
+def listrect_all(h, w):
+    """every rectangle written with an integer list on exactly one buffer axis (rows or columns) and a slice on the other;
+    the image side with slices or with a list on one axis"""
+    for rows_are_list in (True, False):
+        ln, sn = (h, w) if rows_are_list else (w, h)
+        for la in _list_axis(ln):
+            for sa in _slice_axis(sn):
+                if la[1] == "list" and sa[2] == "list":
+                    continue                      # two lists on the image side pair up pointwise: not a rectangle
+                yield _listrect(rows_are_list, la, sa)
+
+
+def listrect_sample(rng, h, w, count):
+    """a seeded selection: both orientations alternate; always the whole buffer through a list (in order and permuted), the
+    longest list with a gap, one row / column, nothing addressed"""
+    out, seen = [], set()
+
+    def add(A):
+        key = (A["f"], A["by"], A["bx"], A["iy"], A["ix"])
+        if key not in seen:
+            seen.add(key)
+            out.append(A)
+    pools = {}
+    for rows_are_list in (True, False):
+        ln, sn = (h, w) if rows_are_list else (w, h)
+        whole_l, whole_s = tuple(range(ln)), tuple(range(sn))
+        sa = ("slice", whole_s, "slice", whole_s)
+        add(_listrect(rows_are_list, (whole_l, "slice", whole_l), sa))
+        add(_listrect(rows_are_list, (whole_l[::-1], "list", whole_l), sa))
+        add(_listrect(rows_are_list, ((0, ln - 1), "list", (ln - 1, ln - 1)), ("rev", whole_s[::-1], "slice", whole_s)))
+        add(_listrect(rows_are_list, ((ln - 1,), "slice", (0,)), sa))
+        add(_listrect(rows_are_list, ((), "list", ()), sa))
+        pools[rows_are_list] = (sorted(_list_axis(ln)), sorted(_slice_axis(sn)))
+    flip = True
+    while len(out) < count:
+        la, sa = (rng.choice(pl) for pl in pools[flip])
+        if not (la[1] == "list" and sa[2] == "list"):
+            add(_listrect(flip, la, sa))
+            flip = not flip
+    return out
+
+
 def lit_set(items):
     return "{" + ", ".join(sorted(tla.lit(x) for x in items)) + "}"
 
@@ -246,6 +330,7 @@ CFG_HEAD = """CONSTANTS
  PriorTiles <- MCPrior
  ExploreFrom <- MCExplore
  FancySel <- MCFancy
+ ListSel <- MCList
  Formats <- MCFormats
  FileTiles <- MCFileTiles
  PairModes <- MCPairModes
@@ -281,10 +366,10 @@ PROPERTY SiblingMaskedIsRemoved
 """
 
 
-def buf_job(name, h, w, src, prior, fancy, imgforms, closed, workers):
+def buf_job(name, h, w, src, prior, fancy, imgforms, closed, workers, lists=()):
     """One BufSpec run.  closed = explore everything reachable; otherwise only the calls from the prior contents."""
     defs = [("MCSrc", lit_set(src)), ("MCPrior", lit_set(prior)),
-            ("MCFancy", lit_set(fancy)),
+            ("MCFancy", lit_set(fancy)), ("MCList", lit_set(lists)),
             ("MCFileTiles", "{}"), ("MCClasses", "AllClasses"), ("MCImgForms", lit_set(imgforms)), ("MCFormats", "{}"),
             ("MCExplore", "Tiles" if closed else "MCPrior"), ("MCPairModes", "{}"), ("MCPairSrc", "{}"), "ASSUME EmitTables"]
     cfg = CFG_BUF % {"H": h, "W": w}
@@ -293,7 +378,7 @@ def buf_job(name, h, w, src, prior, fancy, imgforms, closed, workers):
 
 
 def file_job(name, h, w, tiles, formats, workers):
-    defs = [("MCSrc", "{}"), ("MCPrior", "{}"), ("MCExplore", "{}"), ("MCFancy", "{}"), ("MCFileTiles", lit_set(tiles)), ("MCClasses", "{}"),
+    defs = [("MCSrc", "{}"), ("MCPrior", "{}"), ("MCExplore", "{}"), ("MCFancy", "{}"), ("MCList", "{}"), ("MCFileTiles", lit_set(tiles)), ("MCClasses", "{}"),
             ("MCImgForms", '{"slice"}'), ("MCFormats", lit_set(formats)), ("MCPairModes", "{}"), ("MCPairSrc", "{}")]
     return {"name": name, "module": name, "text": tla.module(name, ["MCMask"], defs), "cfg": CFG_FILE % {"H": h, "W": w},
             "h": h, "w": w, "kind": "file", "workers": workers}
@@ -301,7 +386,7 @@ def file_job(name, h, w, tiles, formats, workers):
 
 def pair_job(name, h, w, modes, formats, src, workers):
     """One PairSpec run: two tile positions, two live buffers, one PyramidIO."""
-    defs = [("MCSrc", "{}"), ("MCPrior", "{}"), ("MCExplore", "{}"), ("MCFancy", "{}"), ("MCFileTiles", "{}"), ("MCClasses", "{}"),
+    defs = [("MCSrc", "{}"), ("MCPrior", "{}"), ("MCExplore", "{}"), ("MCFancy", "{}"), ("MCList", "{}"), ("MCFileTiles", "{}"), ("MCClasses", "{}"),
             ("MCImgForms", '{"slice"}'), ("MCFormats", lit_set(formats)), ("MCPairModes", lit_set(modes)), ("MCPairSrc", lit_set(src))]
     return {"name": name, "module": name, "text": tla.module(name, ["MCMask"], defs), "cfg": CFG_PAIR % {"H": h, "W": w},
             "h": h, "w": w, "kind": "pair", "workers": workers}
@@ -358,10 +443,19 @@ def axis_indexer(form, seq, n, image_side):
     raise ValueError(form)
 
 
-def real_indexers(A, h, w):
+def real_indexers(A, h, w, plain_lists=False):
     f = A["f"]
-    return (axis_indexer(f[2], A["iy"], h, True), axis_indexer(f[3], A["ix"], w, True),
-            axis_indexer(f[0], A["by"], h, False), axis_indexer(f[1], A["bx"], w, False))
+    r = [axis_indexer(f[2], A["iy"], h, True), axis_indexer(f[3], A["ix"], w, True),
+         axis_indexer(f[0], A["by"], h, False), axis_indexer(f[1], A["bx"], w, False)]
+    if plain_lists:
+        # a rectangle's list may be a plain Python list as well as an integer array
+        r = [list(A[k]) if (f[p] == "list" and len(A[k])) else x for x, p, k in zip(r, (2, 3, 0, 1), ("iy", "ix", "by", "bx"))]
+    return tuple(r)
+
+
+def buffer_is_view(A):
+    """numpy's b[by_idx, bx_idx] is a view of b (both buffer indexers are slices)"""
+    return "list" not in A["f"][:2]
 
 
 def describe(A):
@@ -386,7 +480,7 @@ def replay_buffer(args):
     emode = getattr(ImageMode, mode)
     problems = []
     seen_keys = {}
-    stats = {"calls": 0, "loads": 0, "chain_max": 0, "bad": 0, "states": len(states)}
+    stats = {"calls": 0, "loads": 0, "chain_max": 0, "bad": 0, "states": len(states), "update_non_slice": 0}
 
     def bad(sev, key, msg, rep):
         stats["bad"] += 1
@@ -404,9 +498,9 @@ def replay_buffer(args):
             raise RuntimeError("value map broken for %s" % mode)
         sources.append(img)
     idx = info["idx"]
-    real_idx = [real_indexers(A, h, w) for A in idx]
-    nidx, nrect, ns = len(idx), info["nrect"], len(sources)
-    per_state = 1 + nidx * ns + nrect * ns
+    real_idx = [real_indexers(A, h, w, plain_lists=(A["k"] == "rect" and j % 2 == 1)) for j, A in enumerate(idx)]
+    nidx, ns = len(idx), len(sources)
+    per_state = 1 + 2 * nidx * ns             # clear, fill and update with every indexer quadruple and source
     # visit a state's calls in a scattered order (a stride coprime to their number) so that chains mix the three operations
     stride = max(1, int(per_state * 0.618))
     while math.gcd(stride, per_state) != 1:
@@ -468,16 +562,26 @@ def replay_buffer(args):
             got = None
             err = "raised %r" % (ex,)
         stats["calls"] += 1
+        if op == "update" and not buffer_is_view(idx[j]):
+            stats["update_non_slice"] += 1
         chain += 1
         exp_tile = decode(exp, n, base)
         if got != exp_tile:
+            # update with a list / integer array on a buffer axis (numpy hands the code a copy there) is reported on its own key
+            opkey = "buffer:%s:%s" % (mode, op if (op != "update" or buffer_is_view(idx[j])) else "update-non-slice")
+            if seen_keys.get(opkey, 0) >= 2:
+                # already written out twice: count it and resynchronise on a fresh buffer
+                stats["bad"] += 1
+                seen_keys[opkey] += 1
+                cur = None
+                continue
             before = decode(cur, n, base)
             rep = {"mode": mode, "grid": [h, w], "op": op, "buffer_before": before, "expected_after": exp_tile,
                    "observed_after": got, "error": err}
             if op != "clear":
                 rep["indexers"] = describe(idx[j])
                 rep["source"] = decode(src_codes[k], n, base)
-            bad("V", "buffer:%s:%s" % (mode, op),
+            bad("V", opkey,
                 "%s on a %dx%d %s buffer: before %s, %s%s -> observed %s, specified %s (0 = undefined)"
                 % (op, h, w, mode, list(before), ("indexers %s source %s" % (describe(idx[j]), list(rep["source"]))) if op != "clear" else "",
                    (" " + err) if err else "", list(got) if got else None, list(exp_tile)), rep)
@@ -990,7 +1094,7 @@ def dump_buf_tables(ctx, r, job):
     for rec in r.json_lines("B"):
         ns = len(info["src"][rec["c"]])
         fill = np.array(rec["fill"], dtype=np.uint16).reshape(len(info["idx"]), ns)
-        upd = np.array(rec["update"], dtype=np.uint16).reshape(info["nrect"], ns)
+        upd = np.array(rec["update"], dtype=np.uint16).reshape(len(info["idx"]), ns)
         per.setdefault(rec["c"], {})[rec["b"]] = (rec["clear"], fill, upd)
     out = {}
     small = dict((k, info[k]) for k in ("h", "w", "v", "nrect", "idx"))
@@ -1026,8 +1130,8 @@ def run(ctx):
     import multiprocessing as mp
     rng = ctx.rng
     quick = ctx.quick
-    ctx.rule = ("TLC explores the buffer machine (all calls Clear / Fill / Update x indexers x source images from every reachable buffer "
-                "content) and the tile-file machine (all calls Write(mode, tile) / ReadNone / ReadMasked(mode) from every file state, per "
+    ctx.rule = ("TLC explores the buffer machine (all calls Clear / Fill / Update x indexers - slice rectangles, list-on-one-axis rectangles, "
+                "pointwise integer arrays; the same for Fill and Update - x source images from every reachable buffer content) and the tile-file machine (all calls Write(mode, tile) / ReadNone / ReadMasked(mode) from every file state, per "
                 "format) and emits the complete transition tables; every emitted transition is executed on real toasty objects of every "
                 "mode of the class (chains of calls on one real buffer; write/read histories on one real PyramidIO tile) and the projected "
                 "real state is compared with TLC's. distinct = distinct (grid, mode, state, call) transitions replayed; all are non-trivial")
@@ -1045,16 +1149,20 @@ def _run(ctx, pool, rng, quick):
     t22, t23 = mask_tiles(2, 2), mask_tiles(2, 3)
     jobs = []
     if quick:
-        jobs.append(buf_job("MCBuf22", 2, 2, t22, {(0,) * 4}, fancy_sample(rng, 2, 2, 24), ["slice"], True, 8))
+        jobs.append(buf_job("MCBuf22", 2, 2, t22, {(0,) * 4}, fancy_sample(rng, 2, 2, 24), ["slice"], True, 8,
+                            lists=listrect_sample(rng, 2, 2, 20)))
         pri = sorted(t23)
         pr23 = {(0,) * 6, pattern(2, 3)} | set(rng.sample(pri, 6))
         sr23 = {pattern(2, 3), (2,) * 6} | set(rng.sample(pri, 6))
-        jobs.append(buf_job("MCBuf23", 2, 3, sr23, pr23, fancy_sample(rng, 2, 3, 30), ["slice"], False, 3))
+        jobs.append(buf_job("MCBuf23", 2, 3, sr23, pr23, fancy_sample(rng, 2, 3, 30), ["slice"], False, 3,
+                            lists=listrect_sample(rng, 2, 3, 30)))
         ftiles = t22
     else:
         jobs.append(buf_job("MCBuf22", 2, 2, all_tiles(4), {(0,) * 4}, list(fancy_all(2, 2)), ["slice"], True, 8))
         jobs.append(buf_job("MCBuf22r", 2, 2, t22, {(0,) * 4}, [], ["slice", "rev"], True, 3))
-        jobs.append(buf_job("MCBuf23", 2, 3, t23, t23, fancy_sample(rng, 2, 3, 150), ["slice"], False, 6))
+        jobs.append(buf_job("MCBuf22l", 2, 2, t22, {(0,) * 4}, [], ["slice"], True, 3, lists=list(listrect_all(2, 2))))
+        jobs.append(buf_job("MCBuf23", 2, 3, t23, t23, fancy_sample(rng, 2, 3, 150), ["slice"], False, 6,
+                            lists=listrect_sample(rng, 2, 3, 150)))
         ftiles = all_tiles(4)
     jobs.append(file_job("MCFile", 2, 2, ftiles, ["png", "npy", "fits"], 3 if quick else 4))
     if quick:
@@ -1108,11 +1216,12 @@ def _run(ctx, pool, rng, quick):
         raise failure
     ctx.note("tlc_tables", edges)
     ctx.exhaustive = True
-    ctx.note("exhaustive_scope", "2x2 grid: every reachable buffer content x every call (all slice / reversed-slice indexer quadruples, "
-             "%s pointwise indexers, %s source images) and every tile-file state x every call, in TLC and in the replay; 2x3 grid: calls "
+    ctx.note("exhaustive_scope", "2x2 grid: every reachable buffer content x every call (fill and update alike with all slice / reversed-slice indexer "
+             "quadruples, %s rectangles written with an integer list on one buffer axis, %s pointwise indexers, %s source images) and every tile-file state x every call, in TLC and in the replay; 2x3 grid: calls "
              "from a set of prior contents; fits histories: every 4th anchor state x every call (quick: npy every 2nd); two tile positions with two "
              "live buffers on one PyramidIO (1x2 corner of the 256x256 buffers): every reachable state x every Open / Mutate / Close call"
-             % (("24 seeded", "all 16 defined/undefined patterns") if quick else ("all 625", "all 81")))
+             % (("20 seeded", "24 seeded", "all 16 defined/undefined patterns") if quick else
+                ("all %d" % sum(1 for _ in listrect_all(2, 2)), "all 625", "all 81 (list rectangles: the 16 patterns)")))
     per_mode, per_fmt, per_pair = {}, {}, {}
     for kind, res in pending:
         tag, what, stats, problems = res.get()
@@ -1120,8 +1229,9 @@ def _run(ctx, pool, rng, quick):
         ctx.trace_ok(stats["calls"])
         ctx.nontrivial_count += stats["calls"]
         if kind == "buf":
-            pm = per_mode.setdefault(what, {"calls": 0, "chains": 0, "longest_chain": 0})
+            pm = per_mode.setdefault(what, {"calls": 0, "update_calls_with_non_slice_buffer_indexers": 0, "chains": 0, "longest_chain": 0})
             pm["calls"] += stats["calls"]
+            pm["update_calls_with_non_slice_buffer_indexers"] += stats["update_non_slice"]
             pm["chains"] += stats["loads"]
             pm["longest_chain"] = max(pm["longest_chain"], stats["chain_max"])
         elif kind == "pair":
@@ -1159,8 +1269,9 @@ def _run(ctx, pool, rng, quick):
     ctx.assume("integer modes are exercised with non-negative values only (the statement's domain for the larger-value rule)")
     ctx.assume("'an all-undefined tile is never stored' is asserted for the modes that can represent one (RGBA, F32, F64, F16x3); "
                "is_completely_masked is False by design for RGB and the integer modes and nothing is asserted about storing all-zero tiles")
-    ctx.assume("update is exercised with slice indexers only (forward, reversed, whole-axis): with integer-array indexers numpy hands "
-               "update a copy, and no caller in the code base does that; fill is exercised with slices and with pointwise integer arrays")
+    ctx.assume("fill and update are exercised with the same indexer families: slices (forward, reversed, whole-axis), rectangles written "
+               "with an integer list / array on one buffer axis and a slice on the other (both orientations; the image side with slices or "
+               "a list on one axis), and pointwise integer-array quadruples; no indexer addresses a buffer pixel twice")
     ctx.assume("a fully undefined F16x3 tile is represented with NaN in every channel (what clear() and fill produce); update treats a pixel "
                "with NaN in any channel as undefined while is_completely_masked asks for NaN in all, so a tile made only of partly-NaN "
                "pixels is stored: observed, not judged (buffer operations cannot create such pixels, only input data can)")
